@@ -168,7 +168,8 @@ static void do_g2f(vf_case *c) {
 static const char *GER[] = {"gt_exp", "gt_exp_sec", "gt_exp_dig", "gt_exp_gen", "gt_exp_sim", "gt_inv", "gt_sqr / gt_mul", "gt_frb"};
 #define NGER 8
 static void do_gte(vf_case *c) {
-	int rt = (int)mpz_get_si(c->v[0]), ik = (int)mpz_get_si(c->v[1]), th = 0; bn_t k, l; bn_null(k); bn_new(k); bn_null(l); bn_new(l); sc_bn(k, ik); sc_bn(l, (ik + 5) % NSC); gt_t X, E1; gt_null(X); gt_new(X); gt_null(E1); gt_new(E1); mpz_t e; mpz_init_set(e, SC[ik]);
+	int rt = (int)mpz_get_si(c->v[0]), ik = (int)mpz_get_si(c->v[1]), th = 0, frbpw = 0; if (rt == 7) { /* the second argument is the Frobenius power; the element is E0^s10 (powers 0..2 also on E0^(r-1)) */ frbpw = ik; ik = frbpw < 3 ? 4 : 10; }
+	bn_t k, l; bn_null(k); bn_new(k); bn_null(l); bn_new(l); sc_bn(k, ik); sc_bn(l, (ik + 5) % NSC); gt_t X, E1; gt_null(X); gt_new(X); gt_null(E1); gt_new(E1); mpz_t e; mpz_init_set(e, SC[ik]);
 	if (rt == 1 && (mpz_sgn(SC[ik]) < 0 || mpz_cmp(SC[ik], R) > 0)) { vf_stat_add("x.out_of_range_scalar_not_offered", 1); return; }
 	if (rt == 1 && ep_curve_frdim() < 3 && mpz_sizeinbase(SC[ik], 2) > RLC_DIG) { /* probed in a child: with fewer than three Frobenius dimensions (k = 8) the SAC exponentiation indexes its scratch entries q[1], q[2] past an array of frdim elements */
 		fflush(stdout); fflush(stderr); pid_t pid = fork(); if (pid == 0) { signal(SIGSEGV, SIG_DFL); signal(SIGBUS, SIG_DFL); signal(SIGABRT, SIG_DFL); signal(SIGALRM, SIG_DFL); alarm(60); int fd = open("/dev/null", O_WRONLY); if (fd >= 0) dup2(fd, 2); int t2 = 0; RLC_TRY { gt_exp_sec(X, E0, k); } RLC_CATCH_ANY { t2 = 1; } RLC_FINALLY { } if (t2) _exit(35); mpz_t m; mpz_init(m); mpz_mod(m, SC[ik], R); gx_pow(T, &Xr, &E0r, m); _exit(get_gt(&Yr, X) && relt_eq(T, &Xr, &Yr) ? 0 : 34); }
@@ -177,8 +178,8 @@ static void do_gte(vf_case *c) {
 	switch (rt) { case 0: VF_TRY(th, gt_exp(X, E0, k)); break; case 1: VF_TRY(th, gt_exp_sec(X, E0, k)); break; case 2: { dig_t d = (dig_t)(0x9E3779B97F4A7C15ULL >> (ik % 60)); VF_TRY(th, gt_exp_dig(X, E0, d)); mpz_import(e, 1, 1, sizeof d, 0, 0, &d); break; }
 		case 3: VF_TRY(th, gt_exp_gen(X, k)); break; case 4: { bn_t s; bn_null(s); bn_new(s); bn_set_dig(s, 7); gt_exp(E1, E0, s); bn_free(s); VF_TRY(th, gt_exp_sim(X, E0, k, E1, l)); mpz_addmul_ui(e, SC[(ik + 5) % NSC], 7); break; }
 		case 5: gt_exp(E1, E0, k); VF_TRY(th, gt_inv(X, E1)); mpz_neg(e, e); break; case 6: gt_exp(E1, E0, k); VF_TRY(th, gt_sqr(X, E1)); if (!th) VF_TRY(th, gt_mul(X, X, E1)); mpz_mul_ui(e, e, 3); break;
-		default: { gt_exp(E1, E0, k); int pw = 1 + ik % 3; VF_TRY(th, gt_frb(X, E1, pw)); mpz_t pp; mpz_init(pp); mpz_pow_ui(pp, vf_p, (unsigned long)pw); mpz_mul(e, e, pp); mpz_clear(pp); break; } }
-	char w[96]; snprintf(w, sizeof w, "%s with scalar s%d", GER[rt], ik); if (th) { if (mpz_sgn(SC[ik]) >= 0 && mpz_sizeinbase(SC[ik], 2) <= mpz_sizeinbase(R, 2)) vf_fail(NULL, "%s raised", w); else vf_statf_add(1, "x.raised.%s", GER[rt]); } else expect_pow(w, X, e);
+		default: { gt_exp(E1, E0, k); int pw = frbpw; VF_TRY(th, gt_frb(X, E1, pw)); mpz_t pp; mpz_init(pp); mpz_pow_ui(pp, vf_p, (unsigned long)pw); mpz_mul(e, e, pp); mpz_clear(pp); break; } }
+	char w[96]; if (rt == 7) snprintf(w, sizeof w, "gt_frb(., %d) on E0^s%d", frbpw, ik); else snprintf(w, sizeof w, "%s with scalar s%d", GER[rt], ik); if (th) { if (mpz_sgn(SC[ik]) >= 0 && mpz_sizeinbase(SC[ik], 2) <= mpz_sizeinbase(R, 2)) vf_fail(NULL, "%s raised", w); else vf_statf_add(1, "x.raised.%s", GER[rt]); } else expect_pow(w, X, e);
 	mpz_clear(e); bn_free(k); bn_free(l); gt_free(X); gt_free(E1);
 }
 /* val: kind, index */
@@ -215,7 +216,7 @@ static void enumerate(void) {
 	snprintf(bn, sizeof bn, "c12-k%d-g1-every-multiplication-routine", K_); if (vf_bound_on(bn)) { for (int rt = 0; rt < NG1R; rt++) for (int k = 0; k < NSC; k++) RUN2("g1m", rt, k); vf_bound_done(bn); }
 	snprintf(bn, sizeof bn, "c11-k%d-g2-group-law-all-index-pairs", K_); if (vf_bound_on(bn)) { for (int f = 0; f < NLF; f++) for (int i = 0; i < NLI; i++) for (int j = 0; j < NLI; j++) { if (f >= 7 && f <= 11 && j) continue; RUN3("g2l", i, j, f); } vf_bound_done(bn); }
 	snprintf(bn, sizeof bn, "c11-k%d-g2-frobenius-every-power-both-representations", K_); if (vf_bound_on(bn)) { for (int pw = 0; pw <= K_ + 1; pw++) for (int j = 0; j < NLI; j++) for (int pr = 0; pr < 2; pr++) { if (K_ > 24 && pw > 18 && (pw + j) % 3) continue; RUN3("g2f", pw, j, pr); } vf_bound_done(bn); }
-	snprintf(bn, sizeof bn, "c12-k%d-gt-exponentiation-forms", K_); if (vf_bound_on(bn)) { for (int rt = 0; rt < NGER; rt++) for (int k = 0; k < NSC; k++) RUN2("gte", rt, k); vf_bound_done(bn); }
+	snprintf(bn, sizeof bn, "c12-k%d-gt-exponentiation-forms", K_); if (vf_bound_on(bn)) { for (int rt = 0; rt < NGER; rt++) for (int k = 0; k < (rt == 7 ? K_ + 2 : NSC); k++) RUN2("gte", rt, k); vf_bound_done(bn); }
 	snprintf(bn, sizeof bn, "c12-k%d-validity-predicates", K_); if (vf_bound_on(bn)) { for (int k = 0; k < NSC; k++) RUN2("val", 0, k); for (int i = 0; i < 12; i++) RUN2("val", 1, i); vf_bound_done(bn); }
 	snprintf(bn, sizeof bn, "c11-k%d-twist-points-outside-the-subgroup-and-cofactor", K_); if (vf_bound_on(bn)) { for (int i = 0; i < (vf_tier ? 12 : 4); i++) RUN2("val", 2, i); vf_bound_done(bn); }
 	vf_stat_add("transitions", transitions);
